@@ -847,7 +847,8 @@ def build_update_recipe(
         # but perhaps they will be useful in debugging some future problem
         field_def = SimpleValue("${{input.%s}}" % attrname, "", -3)
         new_field = FieldFactory(attrname, field_def, "", -4)
-        tables[template.tablename].fields[attrname] = new_field
+        if template.tablename in tables:  # hidden tables are not in the schema
+            tables[template.tablename].fields[attrname] = new_field
         return new_field
 
     template.fields.extend(
